@@ -89,9 +89,21 @@ func errorHook(err error, p redact.SafePrinter, verb rune) {
 		e.safeFmtMethod(v.ID, "Hook", p, verb)
 		return
 	}
-	p.SafeString("E(")
-	p.UnsafeString(err.Error())
-	p.SafeString(")")
+	// verb-sensitive, like the hooks of real error libraries
+	switch verb {
+	case 'v', 's':
+		p.SafeString("E(")
+		p.UnsafeString(err.Error())
+		p.SafeString(")")
+	case 'q', 'x', 'X':
+		p.SafeString("E")
+		p.SafeRune(redact.SafeRune(verb))
+		p.SafeString("(")
+		p.Printf("%"+string(verb), err.Error())
+		p.SafeString(")")
+	default:
+		p.Printf("%%!%c(hooked %T)", verb, err)
+	}
 }
 
 var scriptedKinds = map[string]bool{
